@@ -52,7 +52,10 @@ void run_grid(vf::Ctx& c, const char* tname, double res_d, const std::vector<Pai
   long double cells = 1;
   for (size_t d = 0; d < DIM; ++d) cells *= ((long double)hi[d] - lo[d]) / res + 2;
   if (cells > 1e7L) { c.trivial(); return; }
-  G g = (form == 1) ? G(hi[0], res) : G(Interval<S, DIM>(lo, hi), res);
+  G g0 = (form == 1) ? G(hi[0], res) : G(Interval<S, DIM>(lo, hi), res);
+  // the mapping under test is, in turn, the constructed object, a copy of it, or a default-constructed object assigned from it
+  G gcopy(g0); G gassigned; gassigned = g0;
+  G& g = (a % 3 == 0) ? g0 : (a % 3 == 1) ? gcopy : gassigned;
   Ix N = g.getNumberOfCellsAlongAxes();
   auto params = [&](const Pt* p) {
     vf::JO o; o.str("type", tname).i("dim", DIM).num("res", res).i("form", form);
